@@ -286,6 +286,21 @@ def c16_shapes(tier="quick"):
     bodies1 = level0 + ["effect()\n" + b for b in ("return", "break", "continue", "effect()", "raise E()")]
     level1 = list(_c16_compounds(bodies1, C16_TESTS, C16_ITERS))
     out = [("s0/%d" % i, s) for i, s in enumerate(level0)] + [("s1/%d" % i, s) for i, s in enumerate(level1)]
+    # loop bodies of two statements: a conditional jump followed by an unconditional one
+    k = 0
+    for head in ["for _ in (1, 2)", "for _ in seq()", "for _ in range(7002)", "while True", "while cond()", "while p > 0"]:
+        for test in ("cond()", "p > 0", "7000 > 7001"):
+            for jump in ("continue", "break", "return", "raise E()"):
+                for tail in ("return", "raise E()", "break", "continue", "effect()"):
+                    for wrap in ("%s", "with cm():\n%s", "if %s:\n%%s\nelse:\n    %s" % (test, jump)):
+                        if wrap.startswith("if"):
+                            inner = _ind("effect()\n" + jump)
+                            body = (wrap % inner) + "\n" + tail
+                        else:
+                            inner = "if %s:\n%s\n%s" % (test, _ind(jump), tail)
+                            body = wrap % (_ind(inner) if wrap != "%s" else inner)
+                        k += 1
+                        out.append(("s1b/%d" % k, "%s:\n%s" % (head, _ind(body))))
     if tier != "quick":
         # nesting 3: compounds whose bodies are (a sample of) level-1 compounds
         inner = [s for i, s in enumerate(level1) if i % 7 == 0]
